@@ -134,6 +134,19 @@ def render(prog, deallocs, diamond=None):
                     L.append(P + "} else {")
                     emit(s[3], ind + 1)
                 L.append(P + "}")
+            elif s[0] == "while":
+                # the same counting loop written as scf.while: the body is the "do" region
+                n[0] += 1
+                w = n[0]
+                L.append(P + f"%w{w} = scf.while (%wi{w} = %lb) : (index) -> index {{")
+                L.append(P + f"  %wc{w} = arith.cmpi slt, %wi{w}, %ub : index")
+                L.append(P + f"  scf.condition(%wc{w}) %wi{w} : index")
+                L.append(P + "} do {")
+                L.append(P + f"^bb0(%wj{w} : index):")
+                emit(s[1], ind + 1)
+                L.append(P + f"  %wn{w} = arith.addi %wj{w}, %k1 : index")
+                L.append(P + f"  scf.yield %wn{w} : index")
+                L.append(P + "}")
             elif s[0] == "for":
                 n[0] += 1
                 kind = s[2] if len(s) > 2 else "args"
@@ -185,7 +198,7 @@ builtin.module {{
 def view_scoped(prog):
     """views must be defined before use and not inside loops that other statements escape: keep views at top level."""
     def inner(st):
-        if st[0] == "for":
+        if st[0] in ("for", "while"):
             return list(st[1])
         if st[0] == "if":
             return list(st[2]) + list(st[3] or [])
@@ -387,6 +400,9 @@ def run(chk):
             flat = lambda n_: [s_ for s_ in g.block(0, n_) if s_[0] != "view"]
             cases.append(([s_ for s_ in prog if s_[0] == "view"] + [s_ for s_ in prog if s_[0] != "view"][:3], de, (rnd.randrange(2), flat(rnd.randint(1, 2)), flat(rnd.randint(0, 2)), flat(rnd.randint(0, 2)))))
             continue
+        if tries % 7 == 1 and any(s_[0] == "for" for s_ in prog):
+            # the outermost loops written as scf.while
+            prog = [("while", s_[1]) if s_[0] == "for" else s_ for s_ in prog]
         cases.append((prog, de))
     chk.add_results("races_and_barrier_counts", pmap(case_prog, cases, chunks=4))
     chk.bounds = dict(programs=len(cases), nesting="<=2 (+ a family with sibling inner loops / conditionals in one outer loop)", unroll_K=2, buffers="2 arguments + 3 allocations (i32), 1 argument + 2 allocations (i8), <=3 subviews with offsets in {0,4,symbolic 0..4}")
